@@ -6,7 +6,7 @@ REPLAY = dict(src='replay/c27_replay.cpp', cxxflags=['-DNDEBUG', '-I/repo/tests/
               repo_sources=['tests/test_tools/test_radio.cpp', 'tests/test_tools/test_servers.cpp', 'tests/test_tools/hexdump.cpp', 'tests/test_tools/buffer_io.cpp', 'tests/test_tools/address_io.cpp',
                             'bluetoe/link_layer/delta_time.cpp', 'bluetoe/link_layer/channel_map.cpp', 'bluetoe/link_layer/connection_details.cpp', 'bluetoe/utility/address.cpp'])
 UNITS = [llc.unit('C27_CLAUSES', enforce=['handle_ll_control_data'], replay=REPLAY),
-         lle.unit(['ll_timeout', 'll_end_event', 'transmit_pending_control_pdus', 'valid_phy_encoding', 'handle_phy_request', 'adv_received'], replay=REPLAY),
+         lle.unit(['ll_timeout', 'll_end_event', 'transmit_pending_control_pdus', 'valid_phy_encoding', 'handle_phy_request', 'adv_received', 'll_phy_update_request', 'll_remote_versions_request', 'll_initiating_connection_parameter_request'], replay=REPLAY),
          C27cpr.UNIT]
 META = dict(
     level='other',
@@ -33,8 +33,9 @@ META = dict(
                 "empty), the remaining octets are the request's; asynchronous_connection_parameter_request<>: the parameters already in use are confirmed at once, anything "
                 "else is handed to the application with the four requested values and NOT answered now; connection_parameters_response_fill sends what the application "
                 "decided - LL_CONNECTION_PARAM_RSP with its four values (periodicity 0, offsets 0xffff) or LL_REJECT_EXT_IND with its reason - and clears the pending flag.",
-    assumptions=["one time out is shared by all procedures: two requests queued before either is sent (connection parameter request and version request) share it, the first answer "
-                 "ends it for both - the per function contracts do not decide that history; LL_REJECT_IND (which names no request) ends it whatever is running",
+    assumptions=["one time out is shared by all procedures: the three request functions accept a request only while no response is outstanding and a queued PHY request waits for "
+                 "the time out (contracts in unit events), but a connection parameter request and a version request queued before either is sent still share it - the first "
+                 "answer ends it for both; LL_REJECT_IND (which names no request) and the instant of ANY connection update end it whatever is running: those histories are not decided",
                  "the supervision timeout of a connection parameter request is not validated by the library (neither its range nor timeout > ( 1 + latency ) * interval * 2) "
                  "and the property does not say it has to be; desired_connection_parameters<> is used with min <= max in each pair (precondition, no static_assert)",
                  "handle_connection_parameters_request (contract in unit parameter_request: it returns whether an answer was filled in) and handle_encryption_pdus (C28) are abstract in handle_ll_control_data; handle_phy_request is replaced there by a stand-in "
